@@ -1,19 +1,20 @@
-import NeumannModel.Durable.Lemmas
+import NeumannModel.Durable.Overlay
 /-
   C02 — "Durable store: acknowledged writes survive any crash, in order".
   ONLY the property theorems and their non-vacuity examples; the definitions used by the
-  statements (`Reach`, `ReachF`, `PrefixOf`, `MetaEq`, `FullEq`, `RecoverIsPrefixFull`,
-  `RotationKeepsAcked`, `CodecOK`, `Fits`, `logBytes`) are in `Lemmas.lean`.
+  statements (`Reach`, `PrefixOf`, `MetaEq`, `FullEq`, `RecoverIsPrefixFull`,
+  `RotationKeepsAcked`, `CodecOK`, `Fits`, `logBytes`) are in `Lemmas.lean`, the argument for the
+  crash points "old log replayed over the newer snapshot" in `Overlay.lean`.
 
   Two levels of observation:
    * the metadata map (`Store.md`): what every non-cache `put`/`delete` writes; `MetaEq`;
    * the FULL observable image (`FullEq`): what `get` answers for every key outside the
      `_cache:` class, i.e. the metadata map seen through the entity-index / embedding-slab
      overlay of `emb:` keys.
-  Full image: one crash at any byte (`recover_is_prefix_full`), any chain of crashes and
-  checkpoints except the two crash points "snapshot in place, marker absent/incomplete"
-  (`recover_then_write_full_partial`), the live store (`live_image_follows_spec`), the finished
-  checkpoint (`checkpoint_crash_safe`, last part).  Metadata map: everything, all sync modes.
+  Full image: one crash at any byte (`recover_is_prefix_full`), ANY chain of crashes and
+  checkpoints of the crash model `Reach` — every crash point inside `checkpoint` included
+  (`recover_then_write_full`), every step and cut of a checkpoint under every sync mode
+  (`checkpoint_crash_safe`), the live store (`live_image_follows_spec`).
   `scan` lists readable keys only, live and recovered (`scan_lists_only_readable_keys`).
   The model follows /repo after 197dc525, e374d74b, 6b9ec7ce and the fix "only `emb:` keys get an
   entity-index entry / `EmbeddingSet` record / slab entry in `put_durable` and
@@ -97,16 +98,42 @@ theorem recover_then_write (hc : CodecOK crc enc dec) {snap : Option Store} {f :
   refine ⟨H, _, hpre, recover_take_plain hc snap R n hfit hno, ?_⟩
   rw [replay_md]; exact hme
 
-/-- **Any number of crashes, FULL observable image**, for the crash model `ReachF` = `Reach`
-    without the crash points "new snapshot in place, checkpoint marker absent or incomplete".
-    MISSING (hence `_partial`): at those two crash points the whole old log is replayed over the
-    newer snapshot; for them only the metadata-map statement is proved (`recover_then_write`,
-    `checkpoint_crash_safe`) and the overlay is covered by the correspondence run. -/
-theorem recover_then_write_full_partial (hc : CodecOK crc enc dec) {snap : Option Store} {f : Bytes}
-    {tr : Trace} (h : ReachF crc enc dec snap f tr) :
+/-- **Any number of crashes, FULL observable image**, for EVERY reachable state of the crash model
+    `Reach` (induction on the crash chain): any number of recover / write / crash rounds, every
+    cut byte, and every crash point inside `checkpoint` — log fsynced, snapshot in place with the
+    marker absent, partly written or complete, log truncated.  Recovery succeeds and `get` on the
+    recovered store answers, for every key outside the `_cache:` class, exactly what a history
+    wrote that takes, epoch by epoch, a prefix of the operations containing all acknowledged ones.
+    (At the crash points "snapshot in place, marker absent or incomplete" the whole old log is
+    replayed over the NEWER snapshot; the overlay invariant does not hold after every record
+    there, but does at the end: `good_replay_over`.) -/
+theorem recover_then_write_full (hc : CodecOK crc enc dec) {snap : Option Store} {f : Bytes}
+    {tr : Trace} (h : Reach crc enc dec snap f tr) :
     ∃ H r, PrefixOf tr H ∧ recover crc dec snap f = .ok r ∧ FullEq r (specRun [] H) := by
-  obtain ⟨H, r, hpre, hr, hmd⟩ := recover_then_write hc (reachF_reach h)
-  exact ⟨H, r, hpre, hr, good_fullEq (reachF_good hc h r hr) hmd⟩
+  obtain ⟨H, r, hpre, hr, hmd⟩ := recover_then_write hc h
+  exact ⟨H, r, hpre, hr, good_fullEq (reach_good hc h r hr) hmd⟩
+
+/-- non-vacuity of `recover_then_write_full` at the crash point "snapshot in place, no marker
+    byte", on a case where the overlay invariant is BROKEN in the middle of the replay:
+    `delete emb:a` (absent key: one `MetadataDelete` record), `put emb:a` with a 384-dim vector,
+    checkpoint crashing right after the snapshot is in place.  The disk state is in `Reach`;
+    replaying only the FIRST record of the old log over the new snapshot gives a store whose
+    `get emb:a` answers the vector with an empty body (a value nobody wrote); the whole log — which
+    is what such a crash leaves — gives back the value written. -/
+example :
+    let crc : Bytes → Nat := fun _ => 0
+    let ka := [101, 109, 98, 58, 97]
+    let v : Val := ⟨[7], some (List.replicate 1536 1)⟩
+    let ops := [Op.delete ka, Op.put ka v]
+    let L := (runOps Store.empty ops).2
+    Reach crc toyEnc toyDec (some L)
+      (openRepair [] ++ logBytes crc toyEnc (runOps Store.empty ops).1
+        ++ (encodeRec crc (toyEnc (.checkpoint 0))).take 0) ([] ++ [(ops, ops.length)]) ∧
+    get (replay L ((runOps Store.empty ops).1.take 1)) ka = some ⟨[], some (List.replicate 1536 1)⟩ ∧
+    get (replay L (runOps Store.empty ops).1) ka = some v := by
+  intro crc ka v ops L
+  exact ⟨Reach.ckptCrash Store.empty ops 0 0 .init (by decide +kernel) (by unfold Fits; decide +kernel)
+    (by decide +kernel), by decide +kernel, by decide +kernel⟩
 
 /-- **Checkpoint is crash safe under every sync mode** (`Immediate`, `Batched n`, `Manual`, with
     any unsynced tail).  From every reachable disk state, a running store `sy` (any mode, any
@@ -114,9 +141,11 @@ theorem recover_then_write_full_partial (hc : CodecOK crc enc dec) {snap : Optio
     each of the four steps (log fsynced / snapshot in place / marker appended / log truncated)
     and for EVERY crash cut `n` the step's sync state allows (inside the marker included):
     the disk state is again a reachable one with all operations acknowledged (so
-    `recover_then_write` applies to everything that follows) and recovery yields the
-    pre-checkpoint map — nothing lost, nothing resurrected.  After the last step recovery
-    returns the live store itself (full image, cache included). -/
+    `recover_then_write_full` applies to everything that follows), recovery yields the
+    pre-checkpoint map, and `get` on the recovered store answers every key outside the `_cache:`
+    class exactly as the live store did before the checkpoint (FULL observable image) — nothing
+    lost, nothing resurrected.  After the last step recovery returns the live store itself
+    (cache included). -/
 theorem checkpoint_crash_safe (hc : CodecOK crc enc dec) {snap : Option Store} {f : Bytes} {tr : Trace}
     (h : Reach crc enc dec snap f tr) (mem0 : Store) (hr : recover crc dec snap f = .ok mem0)
     (ops : List Op) (hfit : Fits enc (runOps mem0 ops).1) (id : Nat)
@@ -126,6 +155,7 @@ theorem checkpoint_crash_safe (hc : CodecOK crc enc dec) {snap : Option Store} {
     (∀ st ∈ Sys.ckptSteps crc enc sy id, ∀ n,
         Reach crc enc dec st.snap (st.crashFile n) (tr ++ [(ops, ops.length)]) ∧
         ∃ r, recover crc dec st.snap (st.crashFile n) = .ok r ∧ MetaEq r.md sy.mem.md ∧
+          (∀ k, isCacheKey k = false → get r k = get sy.mem k) ∧
           (st.snap = some sy.mem → r.cache = sy.mem.cache)) ∧
     (∀ n, recover crc dec (Sys.checkpoint crc enc sy id).snap ((Sys.checkpoint crc enc sy id).crashFile n)
         = .ok sy.mem) := by
@@ -166,6 +196,14 @@ theorem checkpoint_crash_safe (hc : CodecOK crc enc dec) {snap : Option Store} {
     rw [hmem]
     exact ⟨Reach.ckptDone mem0 ops h hr hfit, recover_nil _⟩
   have hsynced : (sy.ckptSync.ckptSnapshot).wal.syncedLen = (sy.ckptSync.ckptSnapshot).wal.file.length := rfl
+  -- the full image: both stores satisfy the overlay invariant, so `get` is the metadata map
+  have hgm : Good sy.mem := by rw [hmem]; exact good_runOps (reach_good hc h mem0 hr) ops
+  have full : ∀ {sn : Option Store} {fl : Bytes} (_ : Reach crc enc dec sn fl (tr ++ [(ops, ops.length)]))
+      (r : Store), recover crc dec sn fl = .ok r → MetaEq r.md sy.mem.md →
+      ∀ k, isCacheKey k = false → get r k = get sy.mem k := by
+    intro sn fl hre r hr' hme k hk
+    rw [good_get (reach_good hc hre r hr') k hk, good_get hgm k hk]
+    exact hme k
   have htrunc : ∀ n, (Sys.checkpoint crc enc sy id).crashFile n = [] := by
     intro n; simp [Sys.checkpoint, Sys.ckptTruncate, Wal.truncate, Sys.crashFile]
   constructor
@@ -174,10 +212,10 @@ theorem checkpoint_crash_safe (hc : CodecOK crc enc dec) {snap : Option Store} {
     rcases hst with rfl | rfl | rfl | rfl
     · -- the log is fsynced: every cut keeps the whole log; old snapshot
       rw [show sy.ckptSync.crashFile n = sy.wal.file from Sys.crashFile_sync sy n]
-      show Reach crc enc dec sy.snap _ _ ∧ ∃ r, recover crc dec sy.snap _ = _ ∧ _ ∧ (sy.snap = _ → _)
+      show Reach crc enc dec sy.snap _ _ ∧ ∃ r, recover crc dec sy.snap _ = _ ∧ _ ∧ _ ∧ (sy.snap = _ → _)
       rw [hsnap]
       obtain ⟨a1, r, a2, a3⟩ := A
-      refine ⟨a1, r, a2, a3, ?_⟩
+      refine ⟨a1, r, a2, a3, full a1 r a2 a3, ?_⟩
       intro hs
       have hc' := recovered_cache r a2
       rw [hs] at hc'; exact hc'
@@ -185,17 +223,17 @@ theorem checkpoint_crash_safe (hc : CodecOK crc enc dec) {snap : Option Store} {
       rw [show sy.ckptSync.ckptSnapshot.crashFile n = sy.wal.file from Sys.crashFile_sync sy n]
       obtain ⟨b1, r, b2, b3, b4⟩ := B 0
       rw [List.take_zero, List.append_nil] at b1 b2
-      exact ⟨b1, r, b2, b3, fun _ => b4⟩
+      exact ⟨b1, r, b2, b3, full b1 r b2 b3, fun _ => b4⟩
     · -- marker appended: synced or not, a crash keeps the log and some byte prefix of the marker
       obtain ⟨m, hm⟩ := Sys.crashFile_marker crc enc sy.ckptSync.ckptSnapshot id n hsynced
       rw [hm]
       obtain ⟨b1, r, b2, b3, b4⟩ := B m
-      exact ⟨b1, r, b2, b3, fun _ => b4⟩
+      exact ⟨b1, r, b2, b3, full b1 r b2 b3, fun _ => b4⟩
     · -- log truncated
       have := htrunc n
       simp only [Sys.checkpoint] at this
       rw [this]
-      exact ⟨C.1, sy.mem, C.2, MetaEq.refl _, fun _ => rfl⟩
+      exact ⟨C.1, sy.mem, C.2, MetaEq.refl _, fun _ _ => rfl, fun _ => rfl⟩
   · intro n
     rw [htrunc n]
     exact C.2
@@ -226,20 +264,20 @@ theorem live_image_follows_spec (ops : List Op) :
 
 /-- **`scan` lists readable keys only, live and after any crash chain** (the repaired class
     `tensor_store.slab_router.put_durable/non_emb_key_with_vector_stays_in_scan_after_delete`,
-    for ALL inputs): on the store recovered from any disk state of the crash model `ReachF`
-    (`ops = []`), and on the live store after ANY further operation list over every key class and
+    for ALL inputs): on the store recovered from any disk state of the crash model `Reach`
+    (`ops = []`; every checkpoint crash point included), and on the live store after ANY further operation list over every key class and
     value, every key that `scan` lists — metadata slab, live entity-index entries, cache ring —
     is answered by `get`.  (Entity-index entries exist for `emb:` keys only and each has its
     metadata record; before the fix this failed: `non_emb_vector_key_witness`.) -/
 theorem scan_lists_only_readable_keys (hc : CodecOK crc enc dec) {snap : Option Store} {f : Bytes}
-    {tr : Trace} (h : ReachF crc enc dec snap f tr) (r : Store) (hr : recover crc dec snap f = .ok r)
+    {tr : Trace} (h : Reach crc enc dec snap f tr) (r : Store) (hr : recover crc dec snap f = .ok r)
     (ops : List Op) :
     ∀ k ∈ scanKeys (runOps r ops).2, (get (runOps r ops).2 k).isSome = true :=
-  scan_readable (good_runOps (reachF_good hc h r hr) ops) (classed_runOps (reachF_classed hc h r hr) ops)
+  scan_readable (good_runOps (reach_good hc h r hr) ops) (classed_runOps (reach_classed hc h r hr) ops)
 
 /-- the fresh store: the hypotheses of `scan_lists_only_readable_keys` hold of the empty disk, and
     the statement is not vacuous (a put then lists its key) -/
-example : ReachF (fun _ => 0) toyEnc toyDec none [] [] ∧
+example : Reach (fun _ => 0) toyEnc toyDec none [] [] ∧
     recover (fun _ => 0) toyDec none [] = .ok Store.empty ∧
     scanKeys (runOps Store.empty [Op.put [97] ⟨[1], some [1, 2, 3, 4]⟩, Op.put [101, 109, 98, 58, 97] ⟨[2], none⟩]).2
       = [[101, 109, 98, 58, 97], [97], [101, 109, 98, 58, 97]] :=
@@ -530,15 +568,6 @@ example : ∃ f tr, Reach (fun _ => 0) toyEnc toyDec none f tr ∧ tr.length = 2
   have r1 := Reach.round Store.empty [Op.put [107] ⟨[1], none⟩] 0 10 r0
     (by decide +kernel) (by unfold Fits; decide +kernel) (by decide +kernel) (by decide) (by decide +kernel)
   have r2 := Reach.round Store.empty [Op.put [107] ⟨[1], none⟩] 1 100 r1
-    (by decide +kernel) (by unfold Fits; decide +kernel) (by decide +kernel) (by decide) (by decide +kernel)
-  exact ⟨_, _, r2, by decide, by decide +kernel⟩
-
-/-- the same chain is in `ReachF` -/
-example : ∃ f tr, ReachF (fun _ => 0) toyEnc toyDec none f tr ∧ tr.length = 2 ∧ f ≠ [] := by
-  have r0 := ReachF.init (crc := fun _ => 0) (enc := toyEnc) (dec := toyDec)
-  have r1 := ReachF.round Store.empty [Op.put [107] ⟨[1], none⟩] 0 10 r0
-    (by decide +kernel) (by unfold Fits; decide +kernel) (by decide +kernel) (by decide) (by decide +kernel)
-  have r2 := ReachF.round Store.empty [Op.put [107] ⟨[1], none⟩] 1 100 r1
     (by decide +kernel) (by unfold Fits; decide +kernel) (by decide +kernel) (by decide) (by decide +kernel)
   exact ⟨_, _, r2, by decide, by decide +kernel⟩
 
